@@ -799,8 +799,11 @@ class DirectProxyAccessor(WritableAccessor[T_co], PhysicalAccessor[T_co]):
                 parent_index = index
         except ValueError:
             parent_index = len(elmlist._parent._element)
+        loader = elmlist._model._loader
+        if value._element.getparent() is not None:
+            loader.idcache_remove(value._element)
         elmlist._parent._element.insert(parent_index, value._element)
-        elmlist._model._loader.idcache_index(value._element)
+        loader.idcache_index(value._element)
 
     def delete(
         self,
@@ -1877,8 +1880,11 @@ class RoleTagAccessor(WritableAccessor, PhysicalAccessor):
                 parent_index = index
         except ValueError:
             parent_index = len(elmlist._parent._element)
+        loader = elmlist._model._loader
+        if value._element.getparent() is not None:
+            loader.idcache_remove(value._element)
         elmlist._parent._element.insert(parent_index, value._element)
-        elmlist._model._loader.idcache_index(value._element)
+        loader.idcache_index(value._element)
 
     def delete(
         self,
